@@ -46,3 +46,25 @@ def coq_case(c, caps, cmin, reuse, strip, data):
 def cases_file(cases):
     body = ';\n '.join(coq_case(*cs) for cs in cases)
     return HEADER + f'Definition results : list bool := [\n {body}].\nEval vm_compute in (failing results).\n'
+
+
+def cert_case(c, reuse, strip):
+    caps = cg.coq_list([1] * (len(c.lines) + 3), cg.coq_N)
+    return f'cert_case {cg.coq_netlist(c)} {caps} 1%N {"true" if reuse else "false"} {"true" if strip else "false"}'
+
+
+def cert_file(cases):
+    hdr = HEADER.replace('Model.Corr.', 'Model.Corr Model.SimOpsCert.')
+    return hdr + 'Definition results : list bool := [\n ' + ';\n '.join(cases) + '].\nEval vm_compute in (failing results).\n'
+
+
+def run_certs(ck, circuits, label):
+    """circuits: list of (c, reuse, strip). Evaluates the memory-map and schedule certificates of the MODEL's SimOps result in Coq."""
+    cases = [cert_case(*x) for x in circuits]
+    chunks = [cases[i:i + 40] for i in range(0, len(cases), 40)]
+    outs = ck.coq_eval_many('cert', [cert_file(ch) for ch in chunks], jobs=12)
+    bad = [ci * 40 + j for ci, (ok, out) in enumerate(outs) for j in ((cg.parse_nat_list(out) if ok else None) or [])]
+    ran = all(ok and cg.parse_nat_list(out) is not None for ok, out in outs)
+    ck.obligation(f'{label}: certificate (ownership simulation of the memory map + level independence) holds for the model\'s SimOps '
+                  f'result on {len(cases)} circuits (unit capacities)', ran and not bad, 'correspondence', f'failing circuits {bad[:8]}')
+    return bad
